@@ -630,7 +630,7 @@ def check_controller(rep: Report, ix) -> None:
     rep.saw("functions", fh.ref)
     gh = build_cfg(fh.node)
     closure_sets_reason = gh.must_pass(gh.entry, gh.exit, lambda n: info_store(n, gh, "stop_reason") is not None)
-    rep.oblige("stop-handler-closure/assigns-stop-reason-on-every-path", closure_sets_reason)
+    rep.note(f"the stop-handler closure assigns info['stop_reason'] on every path: {closure_sets_reason}")
 
     def sets_reason(n: Node) -> bool:
         if info_store(n, g, "stop_reason") is not None:
@@ -652,8 +652,8 @@ def check_controller(rep: Report, ix) -> None:
             tf = g.must_pass(x, g.exit, sets_t_final)
             if not rep.oblige(f"controller/t-final-assigned-{role}", tf):
                 rep.violation("C08.t-final-assigned", f"{ref}::{role}-exit", f"info['t_final'] is not assigned on every path from the {role} exit", line=x.lineno)
-            if role == "stop-at-final-handle":
-                continue  # the reason was set on the normal exit before the final handle
+            # (also for a stop raised in the final handle: "Reached final time", set before that handle, is not the
+            # reason of a stop request -- the statement requires the stop reason to be reported)
             sr = g.must_pass(x, g.exit, sets_reason)
             if not rep.oblige(f"controller/stop-reason-assigned-{role}", sr):
                 rep.violation("C08.stop-reason-assigned", f"{ref}::{role}-exit", f"info['stop_reason'] is not assigned on every path from the {role} exit", line=x.lineno)
